@@ -558,6 +558,21 @@ def LinkOkAt (s : St) (e : Ent) : Prop :=
     (∀ a' d, s.ws r.path = some (.sym a') → r.cur = some d → a' = addrOf r.path d) ∧
     (∀ b w st a, s.ws r.path = some (.file b w st (some a)) → ∃ o, s.cache a = some o ∧ o.b = b)
 
+theorem selfCopy_wsKeep (s : St) (p : Path) : WsKeep s (s.selfCopy p) := by
+  unfold St.selfCopy
+  split
+  · rename_i b st l hw
+    intro q b' n hr
+    by_cases hq : q = p
+    · subst hq
+      refine ⟨s.clock, ?_⟩
+      have : b' = b := by simp [St.readThrough, hw] at hr; exact hr.1.symm
+      subst this
+      simp [St.readThrough, St.setWs, St.tick]
+    · refine ⟨n, ?_⟩
+      simpa [St.readThrough, St.setWs, St.tick, upd_other _ _ hq] using hr
+  · exact WsKeep.refl s
+
 theorem rematOne_wsKeep (s : St) (e : Ent) (h : LinkOkAt s e) : WsKeep s (s.rematOne e).1 := by
   unfold St.rematOne
   cases hre : s.recs e with
@@ -578,7 +593,7 @@ theorem rematOne_wsKeep (s : St) (e : Ent) (h : LinkOkAt s e) : WsKeep s (s.rema
       cases en with
       | sym a' =>
         cases hc : r.cur with
-        | none => exact WsKeep.refl s
+        | none => exact selfCopy_wsKeep s _
         | some d =>
           simp only
           apply recheckFromCache_copy_wsKeep
@@ -591,10 +606,10 @@ theorem rematOne_wsKeep (s : St) (e : Ent) (h : LinkOkAt s e) : WsKeep s (s.rema
           | some o => exact ⟨o, rfl, by simp [ho] at hr; exact hr.1⟩
       | file b w st l =>
         cases l with
-        | none => cases r.cur <;> exact WsKeep.refl s
+        | none => cases r.cur <;> exact selfCopy_wsKeep s _
         | some a =>
           cases hc : r.cur with
-          | none => exact WsKeep.refl s
+          | none => exact selfCopy_wsKeep s _
           | some d =>
             simp only
             split
@@ -606,7 +621,7 @@ theorem rematOne_wsKeep (s : St) (e : Ent) (h : LinkOkAt s e) : WsKeep s (s.rema
               subst this
               rw [← hcond.2]
               exact ⟨o, ho, hb⟩
-            · exact WsKeep.refl s
+            · exact selfCopy_wsKeep s _
 
 theorem rematerialise_wsKeep (s : St) (ts : List Ent) (h : forEachP St.rematOne LinkOkAt s ts) :
     WsKeep s (s.rematerialise ts).1 :=
